@@ -95,3 +95,26 @@ Example c01_cw_hypotheses_met :
   | _ => False
   end.
 Proof. vm_compute. split; reflexivity. Qed.
+
+(* THE BUILDER THEOREM, character-wise variant (standard kind): every automaton construction returns
+   passes cw_cert_ok.  Chain: TrieInv -> NfaFails -> CwDaRefine (CHECK = parent index, so vacant
+   slots never answer; the code mapper is injective: CwBuildCert) -> certificate completeness. *)
+Theorem cw_built_automaton_is_certified :
+  forall (V : Type) (veqb : V -> V -> bool), (forall a b, veqb a b = true <-> a = b) ->
+  forall nfb (pvs : list (list N * V)) (A : cw_automaton V),
+    4 * total_len V pvs <= U32_MAX - 1 ->
+    cw_build_with_values V Standard nfb pvs = Ok A ->
+    cw_cert_ok veqb A pvs = true.
+Proof. exact cw_built_cert. Qed.
+Print Assumptions cw_built_automaton_is_certified.
+
+(* C01 for the character-wise variant with no certificate hypothesis *)
+Theorem cw_overlapping_correct_for_every_built_automaton :
+  forall (V : Type) (veqb : V -> V -> bool), (forall a b, veqb a b = true <-> a = b) ->
+  forall nfb (pvs : list (list N * V)) (A : cw_automaton V),
+    4 * total_len V pvs <= U32_MAX - 1 ->
+    cw_build_with_values V Standard nfb pvs = Ok A ->
+  forall cs : list N, Forall scalar cs ->
+    cw_find_overlapping_iter V A (encode_utf8 cs) = Ok (map (to_bytes V cs) (spec_overlapping V pvs cs)).
+Proof. exact cw_built_overlapping. Qed.
+Print Assumptions cw_overlapping_correct_for_every_built_automaton.
